@@ -1018,7 +1018,8 @@ impl<'r> Gen<'r> {
         // so that callers generate small arguments (type Int already); nothing to do.
         // main statements
         let mut guard = 0;
-        while self.budget > 0 && guard < 40 {
+        let max_statements = if self.o.budget > 400 { 400 } else { 40 };
+        while self.budget > 0 && guard < max_statements {
             guard += 1;
             top.extend(self.stmt(depth));
         }
